@@ -29,6 +29,7 @@ func init() {
 			c14Bound(r)
 			c14Timers(r)
 			c14Callers(r)
+			c14BeforeSend(r)
 		})
 }
 
@@ -309,5 +310,51 @@ func c14Callers(r *R) {
 	if en != nil {
 		ps, _ := r.p.Paths(en)
 		r.c.Check(len(ps) == 1 && ps[0].RetDesc(0) == "(m.cfg!=nil)", "C14.6", "enabled", r.p.Pos(en.Pos()), "enabled = a config was given", "Monitor.enabled is no longer 'cfg != nil'")
+	}
+}
+
+// c14BeforeSend (C14.7): the monitor is watching the channel before the
+// opening request goes out (otherwise an Accept that arrives promptly is not
+// seen and the accept timeout closes a healthy channel), it watches the channel
+// that was created, and when the request cannot be sent the monitor that was
+// added is shut down again.
+func c14BeforeSend(r *R) {
+	for _, x := range []struct{ fn, add, send string }{
+		{"OpenPushDataChannel", "(*channelmonitor.Monitor).AddPushChannel", "(network.DataTransferNetwork).SendMessage"},
+		{"OpenPullDataChannel", "(*channelmonitor.Monitor).AddPullChannel", "(datatransfer.Transport).OpenChannel"}} {
+		fn := r.fn("C14.7", "impl", "manager", x.fn)
+		cn := r.one("C14.7", fn, "(*channels.Channels).CreateNew")
+		if fn == nil || cn == nil {
+			continue
+		}
+		chid := r.v(cn) + "#0"
+		nSend, nFail := 0, 0
+		okOrder, okFail := "", ""
+		for _, pt := range r.pathsOf("C14.7", fn) {
+			is := pt.Index(r.p.Is(x.send))
+			if is < 0 {
+				continue
+			}
+			nSend++
+			ia := pt.Index(r.p.Is(x.add))
+			if (ia < 0 || ia > is || pt.ArgDesc(pt.Evs[ia], 0) != chid) && okOrder == "" {
+				okOrder = "the opening request is sent before the monitor watches the created channel: " + pt.Describe()
+			}
+			sv := pt.Desc(pt.Evs[is].Instr.(ssa.Value))
+			if pt.Has("-"+sv+"==nil") && ia >= 0 {
+				mon := pt.Desc(pt.Evs[ia].Instr.(ssa.Value))
+				// unless monitoring is disabled (no monitor was returned) the monitor is shut down
+				if !pt.Has("+" + mon + "==nil") {
+					nFail++
+					if pt.Count(r.p.Is("(*channelmonitor.monitoredChannel).Shutdown")) != 1 && okFail == "" {
+						okFail = "the request could not be sent but the monitor added for it keeps running: " + pt.Describe()
+					}
+				}
+			}
+		}
+		r.c.Check(okOrder == "", "C14.7", x.fn+"/monitored-before-send", r.p.Pos(fn.Pos()), "the created channel is monitored before the request is sent", okOrder)
+		r.c.Check(okFail == "", "C14.7", x.fn+"/unsent-request-unmonitored", r.p.Pos(fn.Pos()), "a request that could not be sent leaves no monitor behind", okFail)
+		r.c.Floor("C14.7", nSend, 1, "sending paths of "+x.fn)
+		r.c.Floor("C14.7", nFail, 1, "failed-send paths with a monitor in "+x.fn)
 	}
 }
